@@ -830,3 +830,14 @@ from . import timeval as _tv  # noqa: E402
 EXT_HOOKS['datetime.timedelta'] = Builtin('timedelta', _tv.timedelta)
 EXT_HOOKS['datetime.datetime.now'] = Builtin('datetime.now', _tv.now)
 EXT_HOOKS['datetime.datetime.strptime'] = Builtin('datetime.strptime', _tv.strptime)
+
+
+def b_degrees(ex, x):
+    import math
+    x = ex.concretize(x)
+    if isinstance(x, Sym):
+        return mk_float(V.F_MUL(V.float_term(x), V.fval(180.0 / math.pi)))
+    return math.degrees(x)
+
+
+EXT_HOOKS['math.degrees'] = Builtin('math.degrees', b_degrees)
